@@ -32,12 +32,12 @@ pub static PROP: Prop = Prop {
     assumptions: &[
         "stratum-1 sources are exempt from both identifier tests (narrow reading of the statement's parenthesis)",
         "'this daemon itself' = the source's address is one of the configured local addresses",
-        "'unreachable' is only demanded when no usable answer arrived during the last eight polls whichever way the shift is ordered",
+        "'unreachable' = no usable answer to any of the last eight polls, the poll sent together with the set_usable event included (RFC 5905 reach register, as documented on the Reach type)",
         "the Bloom clause is demanded once fitting answers for all 32 chunk offsets of a constant filter were accepted",
         "reference id of an IPv6 address = first four octets of its MD5 (RFC 5905), computed by the monitor's own MD5",
     ],
     profiles: Profiles::Strict,
-    cases: |t| t.pick(4_000, 80_000),
+    cases: |t| t.pick(30_000, 300_000),
     budget_s: |t| t.pick(60, 600),
     run,
     min_nontrivial: 60,
@@ -83,7 +83,8 @@ fn must_reject(j: &Judge, m: &UModel, at_timer: bool) -> Vec<&'static str> {
     }
     let unreachable = match m.polls_since {
         None => true,
-        Some(n) => at_timer && n >= 8,
+        // the set_usable at a timer comes with the Send of one more poll: that poll counts (RFC 5905 reach register)
+        Some(n) => at_timer && n + 1 >= 8,
     };
     if unreachable {
         r.push("unreachable");
@@ -151,6 +152,8 @@ fn kind_a(c: &mut Case) {
         log.push(json!({"source": ip.to_string()}));
     }
     let steps = c.rng.usize(10, 60);
+    // some daemons sit behind a lossy path: long silences make sources unreachable
+    let p_answer = if c.rng.chance(1, 4) { 1 } else { 3 };
     let mut seen = 0u32;
     let mut fam = 0u8;
     let mut snap_sizes = 0u8;
@@ -225,7 +228,7 @@ fn kind_a(c: &mut Case) {
                     *nq += 1;
                 }
                 let Some(req) = view_request(&raw) else { return };
-                if c.rng.chance(3, 4) {
+                if c.rng.chance(p_answer, 4) {
                     // a usable answer with chosen stratum / reference id
                     let stratum = match c.rng.below(6) {
                         0 => 1,
